@@ -136,6 +136,8 @@ Proof. unfold change_sending_state. destruct (ss_eqb _ _); cbn; rewrite ?app_nil
 #[export] Hint Rewrite css_sending css_msg css_sink css_halted css_closing css_timeout css_now css_next
   css_conn css_panicked css_exhausted css_frames : css.
 
+Arguments change_sending_state : simpl never.
+
 Section Proofs.
 Variable encode : message -> bytes.
 
@@ -539,6 +541,487 @@ Proof.
   unfold handler_outs in HIn. rewrite Forall_forall in F. exact (F _ HIn eq_refl).
 Qed.
 
+(* ------------------------------------------------------------------------------------------------ *)
+(* Theorem 2: C14_one_frame                                                                         *)
+(* ------------------------------------------------------------------------------------------------ *)
+
+(* bytes accepted by stream number id, read off the outputs *)
+Fixpoint wrote_on (id : N) (outs : list hout) : bytes :=
+  match outs with
+  | [] => []
+  | HWrote i bs :: r => if i =? id then bs ++ wrote_on id r else wrote_on id r
+  | _ :: r => wrote_on id r
+  end.
+
+Lemma wrote_on_app id a b : wrote_on id (a ++ b) = wrote_on id a ++ wrote_on id b.
+Proof.
+  induction a as [|x a IH]; [reflexivity|]. destruct x; cbn; auto.
+  destruct (stream =? id); rewrite IH, ?app_assoc; reflexivity.
+Qed.
+
+Lemma wrote_on_sevs id id' evs :
+  wrote_on id (map (hout_of_sev id') evs) = if id' =? id then wrote_of evs else [].
+Proof.
+  induction evs as [|[bs|] e IH]; cbn.
+  - destruct (id' =? id); reflexivity.
+  - rewrite IH. destruct (id' =? id); reflexivity.
+  - exact IH.
+Qed.
+
+Definition no_writes (o : list hout) : Prop := forall id, wrote_on id o = [].
+
+Lemma no_writes_nil : no_writes []. Proof. intros id; reflexivity. Qed.
+Lemma no_writes_dropped i : no_writes [HDropped i]. Proof. intros id; reflexivity. Qed.
+Lemma no_writes_ev l : no_writes (map hout_of_ev l).
+Proof. intros id. induction l as [|[s|] l IH]; cbn; auto. Qed.
+Lemma no_writes_app a b : no_writes a -> no_writes b -> no_writes (a ++ b).
+Proof. intros A B id. rewrite wrote_on_app, A, B. reflexivity. Qed.
+
+(* the frame started on a stream, read off the ghost log *)
+Fixpoint frame_of (fr : list (N * message)) (id : N) : option message :=
+  match fr with
+  | [] => None
+  | (i, m) :: r => if i =? id then Some m else frame_of r id
+  end.
+
+Lemma frame_of_app fr l id :
+  frame_of (fr ++ l) id = match frame_of fr id with Some m => Some m | None => frame_of l id end.
+Proof. induction fr as [|[i m] fr IH]; cbn; [reflexivity|]. destruct (i =? id); auto. Qed.
+
+Lemma frame_of_none fr id : frame_of fr id = None <-> ~ In id (map fst fr).
+Proof.
+  induction fr as [|[i m] fr IH]; cbn; [tauto|]. destruct (i =? id) eqn:E.
+  - apply N.eqb_eq in E. split; [discriminate | intros H; exfalso; apply H; auto].
+  - apply N.eqb_neq in E. rewrite IH. tauto.
+Qed.
+
+Lemma frame_of_in fr id m : frame_of fr id = Some m -> In (id, m) fr.
+Proof.
+  induction fr as [|[i m'] fr IH]; cbn; [discriminate|]. destruct (i =? id) eqn:E.
+  - apply N.eqb_eq in E. intros [= ->]. left; congruence.
+  - auto.
+Qed.
+
+Definition FB (fr : list (N * message)) (id : N) : bytes :=
+  match frame_of fr id with Some m => encode m | None => [] end.
+
+Definition prefix (a b : bytes) : Prop := exists r, b = a ++ r.
+
+Lemma prefix_nil_r a : prefix a [] -> a = [].
+Proof. intros [r H]. symmetry in H. apply app_eq_nil in H. tauto. Qed.
+
+Inductive subseq {A} : list A -> list A -> Prop :=
+| sub_nil : subseq [] []
+| sub_skip a l x : subseq a l -> subseq a (x :: l)
+| sub_take a l x : subseq a l -> subseq (x :: a) (x :: l).
+
+Lemma subseq_nil_l {A} (l : list A) : subseq [] l.
+Proof. induction l; constructor; auto. Qed.
+
+Lemma subseq_snoc_skip {A} (a l : list A) x : subseq a l -> subseq a (l ++ [x]).
+Proof.
+  induction 1 as [|a l y H IH|a l y H IH]; cbn.
+  - apply sub_skip, sub_nil.
+  - apply sub_skip, IH.
+  - apply sub_take, IH.
+Qed.
+
+Lemma subseq_snoc_take {A} (a l : list A) x : subseq a l -> subseq (a ++ [x]) (l ++ [x]).
+Proof.
+  induction 1 as [|a l y H IH|a l y H IH]; cbn.
+  - apply sub_take, sub_nil.
+  - apply sub_skip, IH.
+  - apply sub_take, IH.
+Qed.
+
+Lemma subseq_app_l {A} (a b l : list A) : subseq (a ++ b) l -> subseq a l.
+Proof.
+  remember (a ++ b) as ab eqn:E. intros H. revert a E.
+  induction H as [|a0 l y H IH|a0 l y H IH]; intros a E.
+  - destruct a; [constructor | discriminate].
+  - apply sub_skip, IH, E.
+  - destruct a as [|z a]; cbn in E.
+    + apply subseq_nil_l.
+    + inversion E; subst. apply sub_take, IH. reflexivity.
+Qed.
+
+Definition option_list {A} (o : option A) : list A := match o with Some x => [x] | None => [] end.
+
+Lemma NoDup_app_singleton {A} (l : list A) x : NoDup l -> ~ In x l -> NoDup (l ++ [x]).
+Proof.
+  induction 1 as [|y l Hy Hl IH]; cbn; intros Hx.
+  - constructor; [tauto | constructor].
+  - constructor.
+    + rewrite in_app_iff. cbn. intros [H|[H|[]]]; [tauto | subst; tauto].
+    + apply IH. tauto.
+Qed.
+
+(* the invariant, over the components of the state it depends on *)
+Record FIc (fr : list (N * message)) (nx : N) (k : sink_state) (m : option message) (sd : sending_state)
+           (outs : list hout) (ws : list wantlist) : Prop := MkFI {
+  fi_nodup : NoDup (map fst fr);
+  fi_lt : forall id, In id (map fst fr) -> id < nx;
+  fi_sink : forall id buf, k = SkReady id buf -> id < nx /\ wrote_on id outs ++ buf = FB fr id;
+  fi_pref : forall id, prefix (wrote_on id outs) (FB fr id);
+  fi_one : forall id buf, k = SkReady id buf -> frame_of fr id <> None ->
+             m = None /\ exists t c, sd = SsSending t c;
+  fi_sub : subseq (map snd fr ++ option_list m) (map wantlist_message ws)
+}.
+
+Definition FI (st : hstate) (outs : list hout) (ws : list wantlist) : Prop :=
+  FIc (h_frames st) (h_next st) (h_sink st) (h_msg st) (h_sending st) outs ws.
+
+Lemma FIc_init : FIc [] 0 SkNone None SsReady [] [].
+Proof.
+  constructor; cbn; try discriminate; try tauto; try constructor.
+  intros id. exists []. reflexivity.
+Qed.
+
+(* the sink goes away (or was not Ready), the message stays or is dropped, no byte is written *)
+Lemma FIc_drop fr nx k m sd outs ws k' m' sd' o :
+  FIc fr nx k m sd outs ws ->
+  (forall id buf, k' <> SkReady id buf) -> (m' = m \/ m' = None) -> no_writes o ->
+  FIc fr nx k' m' sd' (outs ++ o) ws.
+Proof.
+  intros [F1 F2 F3 F4 F5 F6] K M W. constructor; auto.
+  - intros id buf E. destruct (K _ _ E).
+  - intros id. rewrite wrote_on_app, W, app_nil_r. apply F4.
+  - intros id buf E. destruct (K _ _ E).
+  - destruct M as [->| ->]; [exact F6|]. cbn. rewrite app_nil_r. eapply subseq_app_l. exact F6.
+Qed.
+
+(* outputs that carry no write, nothing else changes *)
+Lemma FIc_nowrite fr nx k m sd outs ws o :
+  FIc fr nx k m sd outs ws -> no_writes o -> FIc fr nx k m sd (outs ++ o) ws.
+Proof.
+  intros [F1 F2 F3 F4 F5 F6] W. constructor; auto.
+  - intros id buf E. rewrite wrote_on_app, W, app_nil_r. auto.
+  - intros id. rewrite wrote_on_app, W, app_nil_r. apply F4.
+Qed.
+
+(* the current stream accepts some of the buffered bytes *)
+Lemma FIc_write fr nx id buf m sd outs ws evs buf' :
+  FIc fr nx (SkReady id buf) m sd outs ws -> wrote_of evs ++ buf' = buf ->
+  FIc fr nx (SkReady id buf') m sd (outs ++ map (hout_of_sev id) evs) ws.
+Proof.
+  intros [F1 F2 F3 F4 F5 F6] W. constructor; auto.
+  - intros id0 buf0 [= <- <-]. destruct (F3 _ _ eq_refl) as [L E]. split; [exact L|].
+    rewrite wrote_on_app, wrote_on_sevs, N.eqb_refl, <- app_assoc, W. exact E.
+  - intros id0. rewrite wrote_on_app, wrote_on_sevs. destruct (id =? id0) eqn:E.
+    + apply N.eqb_eq in E; subst id0. destruct (F3 _ _ eq_refl) as [_ E]. exists buf'.
+      rewrite <- app_assoc, W. symmetry; exact E.
+    + rewrite app_nil_r. apply F4.
+  - intros id0 buf0 [= <- <-]. apply (F5 _ _ eq_refl).
+Qed.
+
+(* start_send on the current stream *)
+Lemma FIc_start fr nx id buf m sd outs ws t c :
+  FIc fr nx (SkReady id buf) (Some m) sd outs ws ->
+  FIc (fr ++ [(id, m)]) nx (SkReady id (fw_start_send buf (encode m))) None (SsSending t c) outs ws.
+Proof.
+  intros [F1 F2 F3 F4 F5 F6].
+  assert (NF : frame_of fr id = None).
+  { destruct (frame_of fr id) eqn:E; [|reflexivity].
+    destruct (F5 _ _ eq_refl) as [H _]; [congruence | discriminate]. }
+  assert (FBn : forall id0, FB (fr ++ [(id, m)]) id0 = if id =? id0 then encode m else FB fr id0).
+  { intros id0. unfold FB. rewrite frame_of_app. cbn. destruct (id =? id0) eqn:E.
+    - apply N.eqb_eq in E; subst id0. rewrite NF. reflexivity.
+    - destruct (frame_of fr id0); reflexivity. }
+  destruct (F3 _ _ eq_refl) as [L E]. unfold FB in E. rewrite NF in E.
+  apply app_eq_nil in E as [E1 E2].
+  constructor.
+  - rewrite map_app. cbn. apply NoDup_app_singleton; [exact F1|]. apply frame_of_none; exact NF.
+  - intros id0. rewrite map_app, in_app_iff. cbn. intros [H|[<-|[]]]; auto.
+  - intros id0 buf0 [= <- <-]. split; [exact L|]. rewrite FBn, N.eqb_refl, E1, E2. reflexivity.
+  - intros id0. rewrite FBn. destruct (id =? id0) eqn:EQ; [|apply F4].
+    apply N.eqb_eq in EQ; subst id0. rewrite E1. exists (encode m); reflexivity.
+  - intros id0 buf0 [= <- <-] _. split; [reflexivity|]. eauto.
+  - rewrite map_app. cbn. rewrite app_nil_r. exact F6.
+Qed.
+
+(* set_stream: a fresh stream number *)
+Lemma FIc_set fr nx k m sd outs ws o :
+  FIc fr nx k m sd outs ws -> no_writes o ->
+  FIc fr (nx + 1) (SkReady nx []) m sd (outs ++ o) ws.
+Proof.
+  intros [F1 F2 F3 F4 F5 F6] W.
+  assert (NF : frame_of fr nx = None).
+  { apply frame_of_none. intros H. apply F2 in H. lia. }
+  constructor; auto.
+  - intros id H. apply F2 in H. lia.
+  - intros id buf [= <- <-]. split; [lia|]. rewrite wrote_on_app, W, !app_nil_r.
+    pose proof (F4 nx) as P. unfold FB in *. rewrite NF in *. apply prefix_nil_r in P. exact P.
+  - intros id. rewrite wrote_on_app, W, app_nil_r. apply F4.
+  - intros id buf [= <- <-] H. congruence.
+Qed.
+
+(* only the stream counter moves (set_stream on a halted handler) *)
+Lemma FIc_next fr nx k m sd outs ws o :
+  FIc fr nx k m sd outs ws -> no_writes o -> FIc fr (nx + 1) k m sd (outs ++ o) ws.
+Proof.
+  intros H W. apply (FIc_nowrite _ _ _ _ _ _ _ o) in H; [|exact W].
+  destruct H as [F1 F2 F3 F4 F5 F6]. constructor; auto.
+  - intros id H. apply F2 in H. lia.
+  - intros id buf E. destruct (F3 _ _ E). split; [lia|assumption].
+Qed.
+
+(* send_wantlist accepted *)
+Lemma FIc_send fr nx k sd outs ws w sd' :
+  FIc fr nx k None sd outs ws -> sd = SsReady ->
+  FIc fr nx k (Some (wantlist_message w)) sd' outs (ws ++ [w]).
+Proof.
+  intros [F1 F2 F3 F4 F5 F6] R. constructor; auto.
+  - intros id buf E NF. destruct (F5 _ _ E NF) as [_ (t & c & S)]. congruence.
+  - cbn in *. rewrite app_nil_r in F6. rewrite map_app. cbn. apply subseq_snoc_take. exact F6.
+Qed.
+
+(* a wantlist the handler ignores (halted) or that makes it panic *)
+Lemma FIc_ws fr nx k m sd outs ws w :
+  FIc fr nx k m sd outs ws -> FIc fr nx k m sd outs (ws ++ [w]).
+Proof.
+  intros [F1 F2 F3 F4 F5 F6]. constructor; auto. rewrite map_app. cbn. apply subseq_snoc_skip. exact F6.
+Qed.
+
+(* a change of sending_state while no stream is held *)
+Lemma FIc_sd fr nx k m sd outs ws sd' :
+  FIc fr nx k m sd outs ws -> (forall id buf, k <> SkReady id buf) -> FIc fr nx k m sd' outs ws.
+Proof.
+  intros H K. rewrite <- (app_nil_r outs). eapply FIc_drop; eauto using no_writes_nil.
+Qed.
+
+Lemma no_writes_iter_out_ev ev : no_writes [hout_of_ev ev].
+Proof. intros id. destruct ev; reflexivity. Qed.
+
+Lemma FIc_outs_eq fr nx k m sd outs outs' ws :
+  FIc fr nx k m sd outs ws -> outs = outs' -> FIc fr nx k m sd outs' ws.
+Proof. intros H <-. exact H. Qed.
+
+Ltac fin_outs := cbn [iter_out app]; rewrite ?app_nil_r, <- ?app_assoc; cbn [app]; reflexivity.
+
+Lemma FI_poll_iter st s r st' s' o outs ws :
+  poll_iter encode st s = (r, st', s', o) -> FI st outs ws -> FI st' (outs ++ o ++ iter_out r) ws.
+Proof.
+  unfold FI. intros PI H. revert PI. unfold poll_iter. destruct (h_queue st) as [|ev q] eqn:Q.
+  2:{ intros [= <- <- <- <-]. cbn. apply FIc_nowrite; [exact H | apply no_writes_iter_out_ev]. }
+  destruct (h_halted st) eqn:HL. { intros [= <- <- <- <-]. cbn. rewrite app_nil_r. exact H. }
+  destruct (timeout_fired st).
+  { unfold drop_sink. cbn [h_sink set_msg set_timeout].
+    destruct (h_sink st) as [| |id buf] eqn:K; intros [= <- <- <- <-];
+      cbn [h_frames h_next h_sink h_msg h_sending set_halted]; autorewrite with css; cbn [h_frames h_next h_sink h_msg h_sending set_sink set_msg set_timeout];
+      [ eapply FIc_outs_eq; [eapply (FIc_drop _ _ _ _ _ _ _ _ _ _ []); [exact H | discriminate | right; reflexivity | apply no_writes_nil] | fin_outs]
+      | eapply FIc_outs_eq; [eapply (FIc_drop _ _ _ _ _ _ _ _ _ _ []); [exact H | discriminate | right; reflexivity | apply no_writes_nil] | fin_outs]
+      | eapply FIc_outs_eq; [eapply (FIc_drop _ _ _ _ _ _ _ _ _ _ [HDropped id]); [exact H | discriminate | right; reflexivity | apply no_writes_dropped] | fin_outs] ]. }
+  destruct (h_msg st) as [m|] eqn:M, (h_sink st) as [| |id buf] eqn:K;
+    try (intros [= <- <- <- <-]; cbn; rewrite ?app_nil_r, ?M, ?K; exact H).
+  - (* open_new_substream *)
+    intros [= <- <- <- <-]. cbn. rewrite M.
+    eapply FIc_drop; [exact H | discriminate | left; reflexivity | intros id; reflexivity].
+  - (* Some, Ready *)
+    pose proof (fw_poll_ready_conserve s buf) as CV.
+    destruct (fr_res (fw_poll_ready buf s)); intros [= <- <- <- <-].
+    + autorewrite with css. cbn [h_frames h_next h_sink h_msg h_sending set_sink set_msg set_timeout add_frame].
+      eapply FIc_outs_eq; [eapply FIc_start; eapply FIc_write; [exact H | exact CV] | fin_outs].
+    + cbn [h_frames h_next h_sink h_msg h_sending set_sink]. rewrite M.
+      eapply FIc_outs_eq; [eapply FIc_drop; [eapply FIc_write; [exact H | exact CV] | discriminate | left; reflexivity | apply no_writes_dropped] | fin_outs].
+    + cbn [h_frames h_next h_sink h_msg h_sending set_sink]. rewrite M.
+      eapply FIc_outs_eq; [eapply FIc_write; [exact H | exact CV] | fin_outs].
+  - (* None, Ready *)
+    pose proof (fw_poll_flush_conserve s buf) as CV.
+    destruct (fr_res (fw_poll_flush buf s)); intros [= <- <- <- <-].
+    + autorewrite with css. cbn [h_frames h_next h_sink h_msg h_sending set_sink]. rewrite M.
+      pose proof (fw_poll_close_conserve (fr_script (fw_poll_flush buf s)) (fr_buf (fw_poll_flush buf s))) as CC.
+      eapply FIc_outs_eq; [eapply FIc_drop; [eapply FIc_write; [eapply FIc_write; [exact H | exact CV] | exact CC]
+                       | discriminate | left; reflexivity | apply no_writes_dropped] | fin_outs].
+    + autorewrite with css. cbn [h_frames h_next h_sink h_msg h_sending set_sink]. rewrite M.
+      eapply FIc_outs_eq; [eapply FIc_drop; [eapply FIc_write; [exact H | exact CV] | discriminate | left; reflexivity | apply no_writes_dropped] | fin_outs].
+    + cbn [h_frames h_next h_sink h_msg h_sending set_sink]. rewrite M.
+      eapply FIc_outs_eq; [eapply FIc_write; [exact H | exact CV] | fin_outs].
+Qed.
+
+Lemma FI_flags st st' outs ws :
+  h_frames st' = h_frames st -> h_next st' = h_next st -> h_sink st' = h_sink st -> h_msg st' = h_msg st ->
+  h_sending st' = h_sending st -> FI st outs ws -> FI st' outs ws.
+Proof. unfold FI. intros -> -> -> -> ->. auto. Qed.
+
+Lemma FI_hpoll_loop fuel : forall st s outs ws,
+  FI st outs ws ->
+  FI (fst (hpoll_loop encode fuel st s)) (outs ++ snd (hpoll_loop encode fuel st s)) ws.
+Proof.
+  induction fuel as [|f IH]; intros st s outs ws H.
+  - cbn. rewrite app_nil_r. eapply FI_flags; [..|exact H]; reflexivity.
+  - cbn [hpoll_loop]. destruct (poll_iter encode st s) as [[[r st'] s'] o] eqn:PI.
+    pose proof (FI_poll_iter _ _ _ _ _ _ _ _ PI H) as H'.
+    destruct r; cbn [iter_out] in H'.
+    + rewrite app_nil_r in H'. exact H'.
+    + specialize (IH st' s' _ _ H'). destruct (hpoll_loop encode f st' s') as [st'' o']. cbn [fst snd] in *.
+      rewrite <- !app_assoc in IH. exact IH.
+    + rewrite app_nil_r in H'.
+      specialize (IH st' s' _ _ H'). destruct (hpoll_loop encode f st' s') as [st'' o']. cbn [fst snd] in *.
+      rewrite <- !app_assoc in IH. exact IH.
+Qed.
+
+Definition op_ws (op : hop) : list wantlist := match op with HSendWantlist w => [w] | _ => [] end.
+
+Lemma sent_ws_app a b : sent_ws (a ++ b) = sent_ws a ++ sent_ws b.
+Proof. induction a as [|[] a IH]; cbn; rewrite ?IH; reflexivity. Qed.
+
+Lemma FI_step st op outs ws :
+  FI st outs ws -> FI (fst (hstep encode st op)) (outs ++ snd (hstep encode st op)) (ws ++ op_ws op).
+Proof.
+  intros H. unfold hstep. destruct (h_panicked st).
+  { cbn. rewrite app_nil_r. destruct op; cbn [op_ws]; rewrite ?app_nil_r; auto. apply FIc_ws. exact H. }
+  destruct op as [w| | |ms|s|s]; cbn [op_ws]; rewrite ?app_nil_r.
+  - (* HSendWantlist *)
+    unfold do_send_wantlist. destruct (h_halted st).
+    { cbn. rewrite app_nil_r. apply FIc_ws. exact H. }
+    destruct (h_msg st) eqn:M.
+    { cbn. apply FIc_ws. unfold FI in H. cbn. apply FIc_nowrite; [exact H | intros ?; reflexivity]. }
+    destruct (h_sending st) eqn:S;
+      try (cbn; apply FIc_ws; unfold FI in H; cbn; apply FIc_nowrite; [exact H | intros ?; reflexivity]).
+    cbn [fst snd]. rewrite app_nil_r. unfold FI in *. cbn. autorewrite with css. cbn.
+    rewrite M, S in H. eapply FIc_send; [exact H | reflexivity].
+  - (* HSetStream *)
+    unfold do_set_stream. destruct (h_halted st).
+    { cbn. unfold FI in *. cbn. apply FIc_next; [exact H | apply no_writes_dropped]. }
+    unfold drop_sink. cbn [h_sink set_next]. unfold FI in *.
+    destruct (h_sink st) eqn:K; cbn; (eapply FIc_set; [exact H|]); auto using no_writes_nil, no_writes_dropped.
+  - (* HAllocFailed *)
+    unfold do_alloc_failed. destruct (h_halted st). { cbn. rewrite app_nil_r. exact H. }
+    unfold FI in *. destruct (h_sink st) eqn:K; cbn; rewrite ?K.
+    + apply FIc_nowrite; [exact H | intros ?; reflexivity].
+    + eapply FIc_drop; [exact H | discriminate | left; reflexivity | apply no_writes_nil].
+    + apply FIc_nowrite; [exact H | intros ?; reflexivity].
+  - (* HAdvance *)
+    cbn. exact H.
+  - (* HPoll *)
+    apply FI_hpoll_loop. exact H.
+  - (* HPollClose *)
+    unfold do_poll_close. destruct (h_closing st).
+    { cbn [fst snd app]. unfold FI in *. cbn. apply FIc_nowrite; [exact H | apply no_writes_ev]. }
+    cbn [h_sink set_msg set_closing].
+    assert (G : forall k o, (forall id buf, k <> SkReady id buf) ->
+      FIc (h_frames st) (h_next st) k None (h_sending st) (outs ++ o) ws ->
+      let st2 := set_sink (set_msg (set_closing st true) None) k in
+      let st3 := match h_sending st2 with
+                 | SsRequestReceived _ _ | SsSending _ _ => change_sending_state st2 (SsFailed (h_conn st))
+                 | _ => st2 end in
+      let st4 := set_queue st3 (h_queue st3 ++ [EvClosing]) in
+      FI (set_queue st4 []) (outs ++ o ++ map hout_of_ev (h_queue st4)) ws).
+    { intros k o K H2 st2 st3 st4. unfold FI. rewrite app_assoc. apply FIc_nowrite; [|apply no_writes_ev].
+      subst st4 st3. cbn [set_queue h_frames h_next h_sink h_msg h_sending].
+      destruct (h_sending st2) eqn:S2; autorewrite with css; subst st2; cbn in *; rewrite ?S2; try exact H2;
+        eapply FIc_sd; eauto. }
+    unfold FI in H. destruct (h_sink st) as [| |id buf] eqn:K.
+    + apply (G SkNone []); [discriminate|]. rewrite app_nil_r.
+      rewrite <- (app_nil_r outs). eapply FIc_drop; [exact H | discriminate | right; reflexivity | apply no_writes_nil].
+    + apply (G SkNone []); [discriminate|]. rewrite app_nil_r.
+      rewrite <- (app_nil_r outs). eapply FIc_drop; [exact H | discriminate | right; reflexivity | apply no_writes_nil].
+    + apply (G SkNone); [discriminate|]. rewrite app_assoc.
+      eapply FIc_drop; [eapply FIc_write; [exact H | apply fw_poll_close_conserve]
+                       | discriminate | right; reflexivity | apply no_writes_dropped].
+Qed.
+
+Lemma FI_run ops : forall st outs ws,
+  FI st outs ws ->
+  FI (fst (hrun encode st ops)) (outs ++ snd (hrun encode st ops)) (ws ++ sent_ws ops).
+Proof.
+  induction ops as [|op ops IH]; intros st outs ws H.
+  - cbn. rewrite !app_nil_r. exact H.
+  - pose proof (FI_step st op outs ws H) as H1. unfold hrun in *. cbn [hrun_trace].
+    destruct (hstep encode st op) as [st1 o1]. cbn [fst snd] in H1.
+    specialize (IH st1 _ _ H1). destruct (hrun_trace encode st1 ops) as [st2 os]. cbn [fst snd concat] in *.
+    replace (ws ++ sent_ws (op :: ops)) with ((ws ++ op_ws op) ++ sent_ws ops).
+    2:{ rewrite <- app_assoc. f_equal. destruct op; reflexivity. }
+    rewrite app_assoc. exact IH.
+Qed.
+
+Lemma handler_final_hrun c ops : handler_final encode c ops = fst (hrun encode (h_init c) ops).
+Proof. unfold handler_final, hrun. destruct (hrun_trace encode (h_init c) ops); reflexivity. Qed.
+
+(* Every stream carries at most one frame; the frames are the messages of distinct HSendWantlist ops, in
+   the order they were issued; the bytes each stream accepted are a prefix of its one frame (of the empty
+   string if no frame was started on it).  Holds for every op list and every script. *)
+Theorem C14_one_frame :
+  forall (c : conn) (ops : list hop),
+    let st := handler_final encode c ops in
+    let outs := handler_outs encode c ops in
+    NoDup (map fst (h_frames st))
+    /\ subseq (map snd (h_frames st)) (map wantlist_message (sent_ws ops))
+    /\ (forall id, prefix (wrote_on id outs) (FB (h_frames st) id)).
+Proof.
+  intros c ops st outs. subst st outs. rewrite handler_final_hrun. unfold handler_outs.
+  pose proof (FI_run ops (h_init c) [] [] FIc_init) as [F1 F2 F3 F4 F5 F6]. cbn [app] in *.
+  split; [exact F1|]. split; [|exact F4]. eapply subseq_app_l. exact F6.
+Qed.
+
+(* poll_flush returns Ok exactly when the stream accepted every buffered byte and then answered the inner
+   poll_flush with Ok: the consumed part of the script is a run of WAccept followed by FlushOk *)
+Lemma fw_poll_flush_ok_script s : forall buf,
+  fr_res (fw_poll_flush buf s) = PrOk ->
+  exists pre, s = pre ++ FlushOk :: fr_script (fw_poll_flush buf s)
+              /\ Forall (fun x => exists n, x = WAccept n) pre
+              /\ wrote_of (fr_evs (fw_poll_flush buf s)) = buf.
+Proof.
+  induction s as [|x s IH]; intros buf; destruct buf as [|b buf]; cbn [fw_poll_flush]; try discriminate.
+  - destruct x; cbn; try discriminate. intros _. exists []. repeat split; constructor.
+  - destruct (fw_write1 (b :: buf) x) as [[[w rest]|]|] eqn:E; try discriminate.
+    cbn [fw_cons_evs fr_res fr_script fr_evs]. intros H. destruct (IH rest H) as (pre & E1 & E2 & E3).
+    exists (x :: pre). split; [cbn; congruence|]. split.
+    + constructor; [|exact E2]. destruct x; cbn in E; try discriminate. eauto.
+    + apply fw_write1_some in E as [-> _]. cbn. rewrite E3. reflexivity.
+Qed.
+
+Lemma in_css_queue_ready st s :
+  ~ In (EvState SsReady) (h_queue st) ->
+  (In (EvState SsReady) (h_queue (change_sending_state st s)) <-> s = SsReady /\ h_sending st <> SsReady).
+Proof.
+  intros NI. rewrite css_queue, in_app_iff. destruct (ss_eqb (h_sending st) s) eqn:E.
+  - apply ss_eqb_spec in E. cbn. split; [tauto|]. intros [-> H]. congruence.
+  - assert (h_sending st <> s) by (intros H; apply ss_eqb_spec in H; congruence).
+    cbn. split.
+    + intros [H1|[[= <-]|[]]]; [tauto|]. split; [reflexivity | assumption].
+    + intros [-> _]. auto.
+Qed.
+
+(* C14, third clause, at the level of one pass of the poll loop: SendingStateChanged(Ready) is queued iff
+   the handler holds a stream, has nothing left to start, and poll_flush of that stream returns Ok *)
+Theorem C14_ready_iff_flushed st s r st' s' o :
+  poll_iter encode st s = (r, st', s', o) -> h_queue st = [] ->
+  (In (EvState SsReady) (h_queue st') <->
+   h_halted st = false /\ timeout_fired st = false /\ h_msg st = None /\ h_sending st <> SsReady /\
+   exists id buf, h_sink st = SkReady id buf /\ fr_res (fw_poll_flush buf s) = PrOk).
+Proof.
+  intros PI Q. revert PI. unfold poll_iter. rewrite Q.
+  destruct (h_halted st) eqn:HL.
+  { intros [= <- <- <- <-]. rewrite Q. cbn [In]. split; [tauto | intros (H & _); discriminate]. }
+  destruct (timeout_fired st) eqn:TF.
+  { unfold drop_sink. cbn [h_sink set_msg set_timeout].
+    assert (G : forall k, In (EvState SsReady) (h_queue (set_halted (change_sending_state
+                 (set_sink (set_msg (set_timeout st None) None) k) (SsFailed (h_conn st))) true)) -> False).
+    { intros k. cbn [h_queue set_halted]. rewrite in_css_queue_ready; [intros [H _]; discriminate|].
+      cbn. rewrite Q. cbn. tauto. }
+    destruct (h_sink st); intros [= <- <- <- <-]; (split; [intros H; destruct (G _ H) | intros (_ & H & _); discriminate]). }
+  destruct (h_msg st) as [m|] eqn:M, (h_sink st) as [| |id buf] eqn:K.
+  - intros [= <- <- <- <-]. cbn [h_queue set_sink]. rewrite Q. cbn [In]. split; [tauto | intros (_ & _ & H & _); discriminate].
+  - intros [= <- <- <- <-]. rewrite Q. cbn [In]. split; [tauto | intros (_ & _ & H & _); discriminate].
+  - destruct (fr_res (fw_poll_ready buf s)); intros [= <- <- <- <-].
+    + rewrite in_css_queue_ready; [|cbn; rewrite Q; cbn; tauto].
+      split; [intros [H _]; discriminate | intros (_ & _ & H & _); discriminate].
+    + cbn [h_queue set_sink]. rewrite Q. cbn [In]. split; [tauto | intros (_ & _ & H & _); discriminate].
+    + cbn [h_queue set_sink]. rewrite Q. cbn [In]. split; [tauto | intros (_ & _ & H & _); discriminate].
+  - intros [= <- <- <- <-]. rewrite Q. cbn [In]. split; [tauto | intros (_ & _ & _ & _ & i & b & H & _); discriminate].
+  - intros [= <- <- <- <-]. rewrite Q. cbn [In]. split; [tauto | intros (_ & _ & _ & _ & i & b & H & _); discriminate].
+  - destruct (fr_res (fw_poll_flush buf s)) eqn:FR; intros [= <- <- <- <-].
+    + rewrite in_css_queue_ready; [|cbn; rewrite Q; cbn; tauto]. cbn [h_sending set_sink].
+      split.
+      * intros [_ H]. repeat split; auto. exists id, buf. auto.
+      * intros (_ & _ & _ & H & _). auto.
+    + rewrite in_css_queue_ready; [|cbn; rewrite Q; cbn; tauto].
+      split; [intros [H _]; discriminate|].
+      intros (_ & _ & _ & _ & i & b & [= <- <-] & H). congruence.
+    + cbn [h_queue set_sink]. rewrite Q. cbn [In]. split; [tauto|]. intros (_ & _ & _ & _ & i & b & [= <- <-] & H). congruence.
+Qed.
+
 End Proofs.
 
 (* ------------------------------------------------------------------------------------------------ *)
@@ -579,3 +1062,11 @@ Proof.
   exists 7, [HSendWantlist ex_w1; HPoll []; HPollClose []; HAllocFailed].
   split; vm_compute; [reflexivity | intuition].
 Qed.
+
+Example C14_one_frame_ex :
+  h_frames (handler_final ex_encode 7 ex_ops) = [(0, wantlist_message ex_w1); (1, wantlist_message ex_w2)]
+  /\ sent_ws ex_ops = [ex_w1; ex_w2]
+  /\ wrote_on 0 (handler_outs ex_encode 7 ex_ops) = ex_encode (wantlist_message ex_w1)
+  /\ wrote_on 1 (handler_outs ex_encode 7 ex_ops) = [5; 1; 0]
+  /\ FB ex_encode (h_frames (handler_final ex_encode 7 ex_ops)) 1 = [5; 1; 0; 7; 7; 7].
+Proof. repeat split; vm_compute; reflexivity. Qed.
